@@ -14,7 +14,7 @@ for mp in sorted(glob.glob("/verif/seeded/*/meta.json")):
     rows.append("| %s | %s | %s | %s | %s | %s |" % (m["id"], m["property"], cell(m.get("summary"), 110), cell(m.get("needs"), 90), "yes" if (m.get("confirmed") or {}).get("ok") else "NO", caught))
 head = """# Seeded changes
 
-Written by independent sub-agents from the property text alone, each in its own scratch worktree. First wave: ids ending in a/b. Second wave (told to avoid the first wave's ideas and to break the property through `ExtAuthZFilter.Check`): c/d. Third wave (told to prefer changes that only manifest under a fault at a particular point, a particular interleaving, a restart or second replica, or a clock condition): e/f. Fourth wave (told to look for a second, less obvious place the property depends on - configuration merging, cookie/header helpers, server layer, start-up wiring, logging - and to stay inside the property's quantifier): g/h. Fifth, small wave (six properties; told to find something none of the earlier eight resembles - boundaries, time arithmetic, string handling, aliasing, ordering): i/j. Sixth wave (round 3; twelve properties, one change each; told which ideas had been used for the property and to resemble none of them - different code site AND different mechanism): k. Each was confirmed here (applies, builds, existing tests pass, demonstration fails with it and passes without), then applied to /repo, quick checks run, undone. `meta.json` in each directory has the commands and the violations reported. `demo_test.go.txt` is the demonstration (suffix .txt so that nothing builds it).
+Written by independent sub-agents from the property text alone, each in its own scratch worktree. First wave: ids ending in a/b. Second wave (told to avoid the first wave's ideas and to break the property through `ExtAuthZFilter.Check`): c/d. Third wave (told to prefer changes that only manifest under a fault at a particular point, a particular interleaving, a restart or second replica, or a clock condition): e/f. Fourth wave (told to look for a second, less obvious place the property depends on - configuration merging, cookie/header helpers, server layer, start-up wiring, logging - and to stay inside the property's quantifier): g/h. Fifth, small wave (six properties; told to find something none of the earlier eight resembles - boundaries, time arithmetic, string handling, aliasing, ordering): i/j. Sixth wave (round 3; twelve properties, one change each; told which ideas had been used for the property and to resemble none of them - different code site AND different mechanism): k; the five properties that wave left out, same instructions: l. Each was confirmed here (applies, builds, existing tests pass, demonstration fails with it and passes without), then applied to /repo, quick checks run, undone. `meta.json` in each directory has the commands and the violations reported. `demo_test.go.txt` is the demonstration (suffix .txt so that nothing builds it).
 
 | id | property | what the change does | what it needs to manifest | confirmed | caught by |
 |---|---|---|---|---|---|
